@@ -843,6 +843,18 @@ fn run_meta_files(
     MetaResult { request, obs: v1.obs, oracle, failed }
 }
 
+/// a case without an edit: the diagnostic of the program itself must be at the given place
+fn run_anchor(prefix: &str, files: &Files, base: &CompileOutcome, anchor: (usize, usize, usize), tag: &str) -> MetaResult {
+    let v = verdict(base, files);
+    let judged = anchor_check(files, base, anchor);
+    let (oracle, failed) = match &judged {
+        Ok(()) => ("ok".to_string(), false),
+        Err(d) => (format!("FAIL:{}", d), true),
+    };
+    let request = format!("{}\t{}\t-\t{}\t{}\t{}", prefix, anchor.0, v.base, if failed { "n" } else { "y" }, tag);
+    MetaResult { request, obs: v.obs, oracle, failed }
+}
+
 fn edited_field(op_prefix: &str, files: &Files, edited: usize) -> String {
     if op_prefix.starts_with("C14.disk") { files[edited].0.clone() } else { format!("{}", edited) }
 }
@@ -1030,6 +1042,94 @@ struct Source {
     files: Files,
     mode: Mode,
     tag: String,
+    /// the files before the error was injected, and where the diagnostic has to point:
+    /// (file index, lowest and highest admissible offset)
+    clean: Option<Files>,
+    anchor: Option<(usize, usize, usize)>,
+}
+
+/// where the diagnostic of an injected error belongs: the offending token when it is known exactly,
+/// otherwise the injected line (for a missing semicolon the parser stops at the next token)
+fn anchor_of(kind: &str, text: &str) -> Option<(usize, usize)> {
+    let line_of = |m: usize, extra_lines: usize| {
+        let b = text.as_bytes();
+        let lo = b[..m].iter().rposition(|c| *c == b'\n').map(|i| i + 1).unwrap_or(0);
+        let mut hi = m;
+        let mut left = extra_lines + 1;
+        while hi < b.len() {
+            if b[hi] == b'\n' {
+                left -= 1;
+                if left == 0 {
+                    break;
+                }
+            }
+            hi += 1;
+        }
+        (lo, hi)
+    };
+    let (marker, exact, extra) = match kind {
+        "undefined-identifier" => ("not_declared_", true, 0),
+        "unknown-type" => ("NoSuchType", true, 0),
+        "lexer-error" => ("$", true, 0),
+        "macro-body-error" => ("not_declared_in_macro", true, 0),
+        "unknown-directive" => ("#frobnicate", false, 0),
+        "missing-include" => ("#include \"missing", false, 0),
+        "unknown-pragma" => ("#pragma frobnicate", false, 0),
+        "type-mismatch" => ("float4x4 m", false, 0),
+        "bad-call" => ("= dot(1.0, 2.0, 3.0,", false, 0),
+        "missing-semicolon" => ("    int q", false, 1),
+        _ => return None,
+    };
+    let m = text.find(marker)?;
+    if kind == "missing-semicolon" {
+        // the parser stops at the first token after the incomplete statement, wherever that is
+        let (lo, line_end) = line_of(m, 0);
+        let next = lex_file(text)?.iter().find(|t| !t.k.is_ws() && t.start >= line_end).map(|t| t.start)?;
+        return Some((lo, next));
+    }
+    Some(if exact { (m, m) } else { line_of(m, extra) })
+}
+
+fn anchor_message_matches(tag: &str, base: &CompileOutcome) -> bool {
+    let expect = [
+        ("inject:undefined-identifier", "'not_declared_"),
+        ("inject:unknown-type", "'NoSuchType"),
+        ("inject:macro-body-error", "'not_declared_in_macro'"),
+        ("inject:lexer-error", "unexpected characters"),
+        ("inject:unknown-directive", "unknown preprocessing directive"),
+        ("inject:missing-include", "failed to load file: 'missing"),
+        ("inject:unknown-pragma", "unknown pragma"),
+        ("inject:type-mismatch", "float4x4"),
+        ("inject:bad-call", "dot("),
+        ("inject:missing-semicolon", "failed to parse source"),
+    ];
+    let CompileOutcome::Err(e) = base else { return false };
+    let Some(blocks) = parse_diag(e) else { return false };
+    expect.iter().any(|(k, m)| tag.contains(k) && blocks[0].msg.contains(m))
+}
+
+fn anchor_check(files: &Files, base: &CompileOutcome, anchor: (usize, usize, usize)) -> Result<(), String> {
+    let (fi, lo, hi) = anchor;
+    let what = format!("{} offsets {}..{}", files[fi].0, lo, hi);
+    match base {
+        CompileOutcome::Err(e) => {
+            let blocks = parse_diag(e).ok_or_else(|| format!("[diagnostic not at the injected construct] unpositioned text {}", clip(e, 80)))?;
+            match &blocks[0].loc {
+                Some((f, l, c)) => {
+                    if *f != files[fi].0 {
+                        return Err(format!("[diagnostic names the wrong file] {}:{}:{} for an error in {}", f, l, c, what));
+                    }
+                    match offset_of(&files[fi].1, *l, *c) {
+                        Some(off) if lo <= off && off <= hi => Ok(()),
+                        _ => Err(format!("[diagnostic not at the injected construct] {}:{}:{} for an error at {}", f, l, c, what)),
+                    }
+                }
+                None => Err(format!("[diagnostic not at the injected construct] no position for an error at {} ({})", what, blocks[0].msg)),
+            }
+        }
+        CompileOutcome::Ok(_) => Err("[diagnostic not at the injected construct] the erroneous program is accepted".into()),
+        CompileOutcome::Panic(p) => Err(format!("panic {}", p)),
+    }
 }
 
 fn gen_source(rng: &mut Rng, hist: &mut Hist) -> Source {
@@ -1048,8 +1148,15 @@ fn gen_source(rng: &mut Rng, hist: &mut Hist) -> Source {
     };
     let kind = *r.pick(INJECT_KINDS);
     let fi = r.below(files.len() as u64) as usize;
+    let mut clean = None;
+    let mut anchor = None;
     if kind != "none" {
+        let before = files.clone();
         if inject(&mut r, &mut files, fi, kind) {
+            if let Some((lo, hi)) = anchor_of(kind, &files[fi].1) {
+                clean = Some(before);
+                anchor = Some((fi, lo, hi));
+            }
             tag.push_str(&format!(",inject:{}@{}", kind, files[fi].0));
             hist.add(&format!("inject={}", kind));
             hist.add(if fi == 0 { "inject-in=entry-file" } else { "inject-in=included-file" });
@@ -1059,12 +1166,53 @@ fn gen_source(rng: &mut Rng, hist: &mut Hist) -> Source {
     } else {
         hist.add("inject=none");
     }
-    Source { files, mode, tag }
+    Source { files, mode, tag, clean, anchor }
 }
 
 // ------------------------------------------------------------------------------------------------
 // running
 // ------------------------------------------------------------------------------------------------
+
+/// line starts of a file that does not lex: not after a spliced line, not inside a block comment
+fn physical_line_starts(text: &str) -> Vec<usize> {
+    let b = text.as_bytes();
+    let mut out = vec![0usize];
+    let mut in_block = false;
+    let mut in_line = false;
+    let mut i = 0;
+    while i < b.len() {
+        if in_block {
+            if b[i..].starts_with(b"*/") {
+                in_block = false;
+                i += 2;
+                continue;
+            }
+        } else if in_line {
+            if b[i] == b'\n' {
+                let spliced = (i >= 1 && b[i - 1] == b'\\') || (i >= 2 && b[i - 1] == b'\r' && b[i - 2] == b'\\');
+                if !spliced {
+                    in_line = false;
+                    continue;
+                }
+            }
+        } else if b[i..].starts_with(b"/*") {
+            in_block = true;
+            i += 2;
+            continue;
+        } else if b[i..].starts_with(b"//") {
+            in_line = true;
+            i += 2;
+            continue;
+        } else if b[i] == b'\n' {
+            let spliced = (i >= 1 && b[i - 1] == b'\\') || (i >= 2 && b[i - 1] == b'\r' && b[i - 2] == b'\\');
+            if !spliced {
+                out.push(i + 1);
+            }
+        }
+        i += 1;
+    }
+    out
+}
 
 struct FileInfo {
     bounds: Vec<Boundary>,
@@ -1106,6 +1254,21 @@ fn run_source(src: &Source, tgt: Tgt, rng: &mut Rng, out: &mut Out, hist: &mut H
     let macros = all_fn_macros(files);
     let info = analyse(files, &macros);
     let prefix = format!("C14.meta\t{}\t{}\t{}", tgt.name(), mode.show(), enc_files(files));
+    // the diagnostic of an injected error names the file it was injected into and the injected construct
+    if let (Some(clean), Some(anchor)) = (&src.clean, src.anchor) {
+        if matches!(base, CompileOutcome::Ok(_)) {
+            // injected into a region that conditional compilation skips
+            hist.add("anchor-skipped=inactive-region");
+        } else if !anchor_message_matches(&src.tag, &base) {
+            // the first diagnostic is about something else (e.g. the injected #define sits in a skipped region)
+            hist.add("anchor-skipped=other-diagnostic-first");
+        } else if matches!(compile_fn(clean), CompileOutcome::Ok(_)) {
+            hist.add("anchor-case");
+            let tag = format!("{},anchor:{}:{}:{}", src.tag, anchor.0, anchor.1, anchor.2);
+            let r = run_anchor(&prefix, files, &base, anchor, &tag);
+            emit(out, hist, r);
+        }
+    }
     let usable: Vec<usize> = (0..files.len()).filter(|i| info[*i].is_some()).collect();
     if usable.is_empty() {
         hist.add("source=unlexable");
@@ -1119,7 +1282,7 @@ fn run_source(src: &Source, tgt: Tgt, rng: &mut Rng, out: &mut Out, hist: &mut H
         if lines_case {
             let starts: Vec<usize> = match &info[fi] {
                 Some(inf) => inf.bounds.iter().filter(|b| b.line_start).map(|b| b.off).collect(),
-                None => std::iter::once(0).chain(text.bytes().enumerate().filter(|(_, c)| *c == b'\n').map(|(i, _)| i + 1)).collect(),
+                None => physical_line_starts(text),
             };
             let p = *rng.pick(&starts);
             let k = match rng.below(8) {
@@ -1540,6 +1703,14 @@ fn replay(lines: Vec<String>, out: &mut Out, hist: &mut Hist) {
                 let compile_fn = |fs: &Files| compile_files(fs, tgt, &mode);
                 let base = compile_fn(&files);
                 let prefix = format!("C14.meta\t{}\t{}\t{}", tgt.name(), mode.show(), enc_files(&files));
+                if let Some(a) = tag.split(',').find_map(|t| t.strip_prefix("anchor:")) {
+                    let v: Vec<usize> = a.split(':').filter_map(|x| x.parse().ok()).collect();
+                    if v.len() == 3 && v[0] < files.len() && edits.is_empty() {
+                        let r = run_anchor(&prefix, &files, &base, (v[0], v[1], v[2]), tag);
+                        emit(out, hist, r);
+                        continue;
+                    }
+                }
                 let text = files[fi].1.clone();
                 let macros = all_fn_macros(&files);
                 // whole-line insertions are judged in the property's own wording as well
